@@ -573,6 +573,9 @@ def check_C06(ctx: Ctx) -> None:
             continue
         if [stmt_text(x) for x in got] != [stmt_text(x) for x in want]:
             ctx.fail("written bytes parse back to something else", dict(request=req, got=events_text(got)[:1500], want=events_text(want)[:1500]))
+    # rdflib entry points: Graph.serialize through the plugin (explicit stream of every class, inferred and explicit
+    # flows, both framings), rdflib flat_/grouped_stream_to_file
+    _c06_rdflib(ctx, r)
     # sink.serialize / sink.parse
     for _ in range(ctx.n(60, 600)):
         cls = r.choice("TQ")
@@ -588,6 +591,87 @@ def check_C06(ctx: Ctx) -> None:
         want = expected_events(stmts, cls)
         if [stmt_text(x) for x in back.store] != [stmt_text(x) for x in want]:
             ctx.fail("sink.serialize/sink.parse round trip differs", dict(statements=stmts_text(stmts)))
+
+
+def _c06_rdflib(ctx: Ctx, r) -> None:
+    import rimpl
+    from rdflib import Dataset, Graph
+    from pyjelly.integrations.rdflib import serialize as rser
+
+    reqs, resp = [], []
+    flows_opts = [None] + [(k, 0, f) for k in impl.FLOWS for f in (0, 2)]
+    for _ in range(ctx.n(250, 2500)):
+        data_cls = r.choice("TQ")
+        cls = "T" if data_cls == "T" else r.choice("QG")
+        o = Opts(fs=r.choice([1, 2, 3, 7, 250]), lt=r.choice(gen.LOGICAL), gen=False, star=False, delim=r.random() < 0.5, pn=16, pp=8, pd=8)
+        o.flow = r.choice(flows_opts)
+        stmts = _rdf11_statements(r, data_cls, o, r.randint(1, 9))
+        if not stmts:
+            continue
+        store = _to_store(stmts, data_cls)
+        want = sorted(set(_norm_text(t) for t in rimpl.store_quads(store)))
+        if data_cls == "Q" and cls == "T":
+            want = sorted(set(",".join(t.split(",")[:3]) for t in want))
+        how = r.choice(["plugin", "plugin", "flat_file", "grouped_file"])
+        req, model_line, _ = None, None, None
+        try:
+            if how == "plugin":
+                is_graph, ns, tok = rimpl.observe(cls, store)
+                req = f"serr {cls} {o.token()} {int(is_graph)} {rimpl.ns_token(ns)} {tok}"
+                stream, opts = rimpl.make_stream(cls, o)
+                b = rimpl.plugin_serialize(store, options=opts, stream=stream)
+                line = f"ok {b.hex()} flow={len(stream.flow)} end"
+                left = len(stream.flow)
+            else:
+                out = io.BytesIO()
+                opts = o.real()
+                if how == "flat_file":
+                    seq = [tuple(rimpl.to_rdflib(t) for t in st) for st in stmts]
+                    items = [rimpl.rparse.Quad(*x) if len(x) == 4 else rimpl.rparse.Triple(*x) for x in seq]
+                    rser.flat_stream_to_file((x for x in items), out, opts)
+                else:
+                    rser.grouped_stream_to_file((x for x in [store]), out, options=opts)
+                b = out.getvalue()
+                line, left = "ok", 0
+        except Exception as e:  # noqa: BLE001
+            line, b, left = "!" + type(e).__name__, None, 0
+        ctx.case(("rdflib", how, cls, o.token(), tuple(want)), b is not None, sample=dict(entry="rdflib:" + how, cls=cls, opts=o.describe()))
+        ctx.dist["rdflib:" + how] += 1
+        if how == "plugin" and req is not None:
+            reqs.append(req)
+            resp.append(line if b is not None else line)
+        if b is None:
+            ctx.dist["rdflib_refused:" + line] += 1
+            continue
+        if left:
+            ctx.fail(f"rdflib {how}: {left} rows left in the flow after the call returned", dict(opts=o.describe(), cls=cls))
+            continue
+        back, err = rimpl.run_par_graph("seek", b)
+        if err:
+            ctx.fail(f"rdflib {how}: written bytes do not parse back: {err}", dict(opts=o.describe(), cls=cls, written=len(b), bytes=b.hex()[:400]))
+            continue
+        got = sorted(set(_norm_text(t) for t in rimpl.store_quads(back)))
+        # what the entry point was asked to write: quads lose their graph when written through a TripleStream
+        eff_T = cls == "T" or (how in ("flat_file", "grouped_file") and ((o.lt % 10) == 3 or data_cls == "T"))
+        if eff_T:
+            want_cmp = sorted(set(",".join(t.split(",")[:3]) for t in want))
+            got = sorted(set(",".join(t.split(",")[:3]) for t in got))
+        else:
+            want_cmp = want
+        if got != want_cmp:
+            ctx.fail(f"rdflib {how}: written bytes parse back to something else", dict(opts=o.describe(), cls=cls, got=got[:10], want=want_cmp[:10]))
+    # the plugin's writer choice (write_delimited / write_single per frame) against the model
+    model = __import__("common").run_driver(reqs)
+    for q, a, m in zip(reqs, resp, model):
+        ctx.corr_checked += 1
+        if a.startswith("!") and m.startswith("!"):
+            ok = a == m
+        else:
+            ok = a == m
+        if not ok:
+            ctx.dist["disagree:SER-rdflib-plugin"] += 1
+            if len(ctx.disagreements) < 20:
+                ctx.disagreements.append(dict(suite="SER-rdflib-plugin", request=q[:3000], impl=a[:3000], model=m[:3000]))
 
 
 # ---------------------------------------------------------------------------------------------
@@ -701,6 +785,8 @@ def check_C08(ctx: Ctx) -> None:
     ctx.evaluations += nh
     reps = [bytes((10 if x else 1, 10 if y else 1, 10 if z else 1)) for x in (0, 1) for y in (0, 1) for z in (0, 1)]
     reps += [b"", b"\n", b"\n\n", b"\x01", b"\x01\n", b"\n\n\x00\x00", b"\x01\x02\x03\x04"]
+    # peek(3) may hand the detector MORE than three bytes: the verdict must not depend on what follows
+    reps += [h + tail for h in list(reps[:8]) for tail in (b"\x00", b"\n", b"\n\n\n", b"\x08\x12\x00")]
     reqs = [f"hint {h.hex()}" if h else "hint" for h in reps]
     ctx.corr("HINT", reqs, [impl.run_hint(h) for h in reps])
     # paired outputs in both modes, with stream names driving the options row / first frame through 0x0A lengths
@@ -709,7 +795,20 @@ def check_C08(ctx: Ctx) -> None:
         cls = r.choice("TQG")
         namelen = r.choice([0, 1, 2, 3, 4, 5, 6, 7, 8, 9, 10, 11, 12, 118, 119, 120, 121, 122, 123, 124, 125, 126, 127, 128])
         o = Opts(fs=r.choice([1, 250]), lt=r.choice([0, {"T": 1, "Q": 2, "G": 2}[cls]]), gen=True, star=True,
-                 name="n" * namelen, pn=r.choice([8, 16, 128, 4000]), pp=r.choice([0, 1, 150]), pd=r.choice([0, 32]))
+                 name="n" * namelen, pn=r.choice([8, 16, 100, 128, 4000]), pp=r.choice([0, 1, 150]), pd=r.choice([0, 16, 32]))
+        if i % 3 == 0:
+            # aim at an options row of exactly 10 bytes (0A 0A 0A ...) and at a first frame of exactly 10 bytes
+            o.gen = o.star = False
+            o.name = ""
+            try:
+                probe, _ = impl.make_stream(cls, o)
+                from pyjelly.serialize.encode import encode_options
+                base = len(encode_options(probe.options.lookup_preset, probe.stream_types, probe.options.params).options.SerializeToString())
+                if base <= 8:
+                    o.name = "n" * (10 - base - 2) if 10 - base - 2 >= 1 else ""
+                ctx.dist[f"options_row_len:{base + (len(o.name) + 2 if o.name else 0)}"] += 1
+            except Exception:  # noqa: BLE001
+                pass
         stmts = gen_fitting(r, cls, o, r.randint(0, 3))
         out = {}
         for delim in (True, False):
@@ -735,6 +834,15 @@ def check_C08(ctx: Ctx) -> None:
         pb = impl.run_par("flat", False, "seek", out[False])
         if pa != pb:
             ctx.fail("same content written in both modes parses differently", dict(delimited=out[True].hex(), single=out[False].hex()))
+        # the same two outputs from a non-seekable source whose first raw read delivers everything (peek sees it all)
+        for delim in (True, False):
+            n = len(out[delim]) + 5
+            line = impl.run_par("flat", False, f"raw:{n}", out[delim])
+            reqs.append(f"par flat 0 1 raw:{n} {out[delim].hex()}")
+            resp.append(line)
+            if line != pa:
+                ctx.fail(f"{'delimited' if delim else 'non-delimited'} output read from a non-seekable source parses differently",
+                         dict(bytes=out[delim].hex(), got=line[:300], want=pa[:300]))
     ctx.corr("HINT", reqs, resp)
     # reference-encoder streams: first frame empty or starting with a row, every first-frame / first-row length
     for i in range(ctx.n(200, 2000)):
@@ -1731,8 +1839,12 @@ def check_C14(ctx: Ctx) -> None:
         ctx.case((cls, o.token(), sink_arg(sink)), bool(bindings), sample=dict(cls=cls, preset=[pn, pp, pd], bindings=[(p, i._iri) for p, i in bindings]))
         if not all(l.endswith(" end") for l, _ in out.values()):
             continue
-        evs_on = real_parse_flat(out[True][1]) if out[True][1] else []
-        evs_off = real_parse_flat(out[False][1]) if out[False][1] else []
+        try:
+            evs_on = real_parse_flat(out[True][1]) if out[True][1] else []
+            evs_off = real_parse_flat(out[False][1]) if out[False][1] else []
+        except Exception as e:  # noqa: BLE001
+            ctx.fail(f"stream written with namespace declarations does not parse back: {type(e).__name__}", dict(request=reqs[-2]))
+            continue
         ns_on_ev = [(e.prefix, e.iri) for e in evs_on if isinstance(e, Prefix)]
         ctx.dist["bindings"] += len(want_ns)
         if [(p, term_text(i)) for p, i in ns_on_ev] != [(p, term_text(i)) for p, i in want_ns]:
@@ -1758,6 +1870,53 @@ def check_C14(ctx: Ctx) -> None:
         if out[False][1]:
             spec_reqs.append(spec_line(out[False][1], o.delim))
             spec_meta.append((reqs[-1], [], False))
+    # grouped: several sinks written through ONE stream, all carrying (partly the same) bindings
+    for i in range(ctx.n(120, 1200)):
+        cls = r.choice("TQ")
+        pn, pp, pd = r.choice([(8, 1, 1), (8, 2, 2), (9, 4, 1), (16, 8, 8), (4000, 150, 32)])
+        o = Opts(fs=r.choice([1, 3, 250]), lt=r.choice({"T": [1, 3], "Q": [2, 4]}[cls]), gen=True, star=True, delim=True, ns=True, pn=pn, pp=pp, pd=pd)
+        g = gen.G(r, n_prefixes=3, n_names=4)
+        shared = [(r.choice(["ex", "a", ""]), r.choice([g.iri(), IRI(g.prefixes[0]), IRI("http://ns.example/")])) for _ in range(r.randint(1, 3))]
+        sinks, all_st, all_ns = [], [], []
+        for j in range(r.randint(2, 4)):
+            st = gen_fitting(r, cls, o, r.randint(1, 4))
+            # start some graphs with an IRI in a declared namespace, so that prefix_id 0 right after the declarations matters
+            if st and r.random() < 0.7:
+                ns_iri = shared[-1][1]._iri
+                first = list(st[0])
+                first[0] = IRI(ns_iri + "s%d" % j)
+                st[0] = type(st[0])(*first)
+                if not gen.fits([st[0]], pn, pp, pd):
+                    st = st[1:]
+            sk = mk_sink(st, shared + ([(f"p{j}", g.iri())] if r.random() < 0.5 else []))
+            sinks.append(sk)
+            all_st += st
+            all_ns += list(sk.namespaces)
+        out = {}
+        for ns_on in (True, False):
+            o.ns = ns_on
+            line, b = impl.run_ser_grouped(o, sinks)
+            reqs.append(f"ser {cls} grouped {o.token()} " + "+".join(sink_arg(sk) for sk in sinks))
+            resp.append(line)
+            out[ns_on] = (line, b)
+        ctx.case(("grouped-ns", reqs[-2]), True)
+        ctx.dist["grouped_multi_sink"] += 1
+        if not all(l.endswith(" end") for l, _ in out.values()):
+            continue
+        try:
+            evs_on = real_parse_flat(out[True][1])
+            evs_off = real_parse_flat(out[False][1])
+        except Exception as e:  # noqa: BLE001
+            ctx.fail(f"grouped: stream written with shared bindings does not parse back: {type(e).__name__}", dict(request=reqs[-2]))
+            continue
+        got_ns = [(e.prefix, term_text(e.iri)) for e in evs_on if isinstance(e, Prefix)]
+        if got_ns != [(p, term_text(i)) for p, i in all_ns]:
+            ctx.fail("grouped: declarations read back differ from the bindings of the sinks, in order", dict(request=reqs[-2], got=str(got_ns)[:600]))
+        st_on = [stmt_text(e) for e in evs_on if not isinstance(e, Prefix)]
+        st_off = [stmt_text(e) for e in evs_off]
+        want_st = [stmt_text(x) for x in expected_events(all_st, cls)]
+        if st_on != st_off or st_on != want_st:
+            ctx.fail("grouped: enabling namespace declarations changes the statements read back", dict(request=reqs[-2], got=st_on[:6], want=want_st[:6]))
     ctx.corr("SER", reqs, resp)
     import common
     for (req, want_ns, on), line in zip(spec_meta, common.run_driver(spec_reqs)):
@@ -1778,6 +1937,10 @@ def check_C14(ctx: Ctx) -> None:
         stmts = _rdf11_statements(r, data_cls, o, r.randint(0, 6))
         store = _to_store(stmts, data_cls)
         extra = [(r.choice(["ex", "a1", "zz"]), URIRef(r.choice(["http://ns.example/", "http://x/y#", "urn:q:"]))) for _ in range(r.randint(0, 3))]
+        # labels of the source for namespaces every fresh rdflib store pre-binds under another label
+        if r.random() < 0.6:
+            extra += r.sample([("dct", URIRef("http://purl.org/dc/terms/")), ("", URIRef("http://xmlns.com/foaf/0.1/")),
+                               ("sch", URIRef("https://schema.org/")), ("w3owl", URIRef("http://www.w3.org/2002/07/owl#"))], r.randint(1, 2))
         for p, u in extra:
             store.bind(p, u)
         want_ns = [(p, str(u)) for p, u in store.namespaces()]
@@ -1792,6 +1955,7 @@ def check_C14(ctx: Ctx) -> None:
         if got_ns != [f"N{hx(p)}=I{hx(u)}" for p, u in want_ns]:
             ctx.fail("rdflib: namespace declarations read back differ from Graph.namespaces()", dict(request=req, got=got_ns[:6]))
         back = Graph() if data_cls == "T" else Dataset()
+        _ = back.namespace_manager  # rdflib creates it lazily and would re-bind its defaults over what was read
         back.parse(data=b, format="jelly")
         have = {(p, str(u)) for p, u in back.namespaces()}
         missing = [x for x in want_ns if x not in have]
@@ -1847,6 +2011,19 @@ def check_C15(ctx: Ctx) -> None:
                 if sorted(set(x for sk in sinks for x in sk)) != want or rimpl.store_quads(store) != want:
                     ctx.fail("rdflib flat / grouped / to_graph disagree", dict(bytes=b.hex()))
         ctx.dist["streams"] += 1
+    # corpus: typed literals in legal but non-canonical lexical forms must come out of both integrations unchanged
+    XS = gen.XSD
+    lits = [("01", XS + "integer"), ("+7", XS + "integer"), ("1", XS + "boolean"), ("1.0E0", XS + "double"), ("1.50", XS + "decimal"),
+            ("2020-01-01T00:00:00Z", XS + "dateTime"), ("abc", XS + "integer"), ("x", XS + "string"), (" 1 ", XS + "int")]
+    stmts = [Triple(IRI("http://c/s"), IRI("http://c/p"), Literal(lex, datatype=dt)) for lex, dt in lits]
+    line, b = impl.run_ser_frames("T", Opts(pn=8, pp=4, pd=16), stmts, is_sink=False)
+    gflat = impl.run_par("flat", False, "seek", b)
+    rflat = rimpl.run_par_flat(False, "seek", b)
+    reqs += [f"par flat 0 0 seek {b.hex()}", f"par flat 0 1 seek {b.hex()}"]
+    resp += [rflat, gflat]
+    ctx.case("corpus:noncanonical-lexical-forms", True)
+    if rflat != gflat:
+        ctx.fail("rdflib and generic flat parsers disagree on non-canonical lexical forms", dict(bytes=b.hex(), rdflib=rflat[:800], generic=gflat[:800]))
     ctx.corr("PARSE-rdflib", reqs, resp)
     # (c) both serializers, corresponding data, same options: byte-identical
     reqs, resp = [], []
